@@ -20,6 +20,10 @@ import YataProofs.Indicators.IchiRun
 import YataProofs.Indicators.MFIRange
 import YataProofs.Indicators.TSIndRange
 import YataProofs.Indicators.More
+import YataProofs.Indicators.RealisesEvery
+import YataProofs.Indicators.RSIRun
+import YataProofs.Indicators.ADXRun
+import YataProofs.Indicators.MACDRun
 namespace Yata.C10
 open Yata
 variable {K : Type} [Field K] [LinearOrder K] [IsStrictOrderedRing K] [DecidableEq K]
@@ -108,6 +112,40 @@ theorem C10_indicator_validate_rejects (P : Nat) (k : Candle ℚ) :
   ⟨fun c h => by simp [Ichi.init, h], fun c h => by simp [Stoch.init, h], fun c h => by simp [Keltner.init, h],
    fun c h => by simp [Env.init, h], fun c h => by simp [AO.init, h]⟩
 
+open Yata.Ind in
+/-- accepted moving averages never panic, EVERY kind: from the constructor (any accepted length, any first value) every
+    run over every stream succeeds and returns the documented formula at every step -/
+theorem C10_every_ma_kind_never_panics {P : Nat} (k : MAKind) (n : Nat) (v : ℚ) (h : validLen P k n) (xs : List ℚ) :
+    ∃ m outs m', MA.init P { kind := k, length := n } v = .ok m ∧ runM MAInst.next m xs = .ok (outs, m') ∧
+      outs.length = xs.length ∧ ∀ i (hi : i < outs.length), outs[i] = specOf k n v (xs.take (i + 1)) := by
+  obtain ⟨m, hm, hr⟩ := every_kind_realises (P := P) k n v h
+  obtain ⟨outs, m', hrun, _, hlen, houts⟩ := hr.run xs
+  exact ⟨m, outs, m', hm, hrun, hlen, fun i hi => by simpa using houts i hi⟩
+
+open Yata.Ind in
+/-- accepted indicator instances configured with ANY kinds of moving average never panic, over every candle stream:
+    RSI, MACD, ADX (each from its constructor) -/
+theorem C10_configurable_indicators_never_panic {P : Nat} (cs : List (Candle ℚ)) :
+    (∀ (c : RSICfg) (k0 : Candle ℚ), RSI.validate c = true → validLen P c.ma.kind c.ma.length →
+      ∃ s0 outs s', RSI.init P c k0 = .ok s0 ∧ runM RSI.vals s0 cs = .ok (outs, s')) ∧
+    (∀ (c : MACDCfg) (k0 : Candle ℚ), MACD.validate c = true → validLen P c.ma1.kind c.ma1.length →
+      validLen P c.ma2.kind c.ma2.length → validLen P c.signal.kind c.signal.length →
+      ∃ s0 outs s', MACD.init P c k0 = .ok s0 ∧ runM (fun s k => s.vals k none) s0 cs = .ok (outs, s')) ∧
+    (∀ (m1 m2 : MA) (period1 : Nat) (zone : ℚ) (k0 : Candle ℚ) (s0 : ADX), validLen P m1.kind m1.length →
+      validLen P m2.kind m2.length → ADX.init P m1 m2 period1 zone k0 = .ok s0 →
+      ∃ outs s', runM ADX.step s0 cs = .ok (outs, s')) := by
+  refine ⟨?_, ?_, ?_⟩
+  · intro c k0 hv h1
+    obtain ⟨s0, outs, s', a, b, _⟩ := RSI.run_range_every_kind c k0 hv h1 cs
+    exact ⟨s0, outs, s', a, b⟩
+  · intro c k0 hv h1 h2 h3
+    obtain ⟨s0, outs, s', a, b, _⟩ := MACD.run_spec (P := P) c k0 hv h1 h2 h3 cs
+    exact ⟨s0, outs, s', a, b⟩
+  · intro m1 m2 period1 zone k0 s0 h1 h2 h0
+    obtain ⟨outs, s', a, _⟩ := ADX.run_ok m1 m2 period1 zone k0 s0 h1 h2 h0 cs
+    exact ⟨outs, s', a⟩
+
+
 /-! non-vacuity: the default PeriodType -/
 example : (SMA.new 255 255 (1 : ℚ)).isErr ∧ (SMA.new 255 254 (1 : ℚ)).noPanic := by
   constructor
@@ -123,3 +161,5 @@ end Yata.C10
 #print axioms Yata.C10.C10_accepted_sma_never_panics
 #print axioms Yata.C10.C10_indicators_never_panic
 #print axioms Yata.C10.C10_indicator_validate_rejects
+#print axioms Yata.C10.C10_every_ma_kind_never_panics
+#print axioms Yata.C10.C10_configurable_indicators_never_panic
